@@ -1410,6 +1410,27 @@ class Evaluator(object):
             if flat is not None:
                 n = len(flat)
                 return Mat([[flat[i] if i == j else C(0) for j in range(n)] for i in range(n)], (n, n))
+        if short in ('any', 'all') and len(a) == 1 and not kwargs:
+            v = a[0]
+            if isinstance(v, NoneV):
+                return Bool(False)
+            if isinstance(v, Mat):
+                flat = []
+
+                def walk(d):
+                    if isinstance(d, list):
+                        for y in d:
+                            walk(y)
+                    else:
+                        flat.append(d)
+                walk(v.data)
+                conds = [self.truth(x, node) for x in flat]
+                if all(isinstance(c, Bool) for c in conds):
+                    return Bool(any(c.b for c in conds) if short == 'any' else all(c.b for c in conds))
+                acc = Bool(short == 'all')
+                for c in conds:
+                    acc = self.cor(acc, c) if short == 'any' else self.cand(acc, c)
+                return acc
         if short in ('identity', 'eye') and a and _const_int(a[0]) is not None:
             n = _const_int(a[0])
             return Mat([[C(1 if i == j else 0) for j in range(n)] for i in range(n)], (n, n))
@@ -1452,10 +1473,23 @@ class Evaluator(object):
         out_axes = []
         cur = data
         ks = []
-        for i in idx:
-            if isinstance(i, SliceV):
+        if any(isinstance(i, SliceV) for i in idx):
+            rng = self._slice_ranges(m, idx, node)
+            if rng is None:
                 self.diag('unknown', node, 'slice of an array')
                 return self.unknown('array slice', node)
+
+            def take(d, rs):
+                if not rs:
+                    return d
+                kind, r = rs[0]
+                if kind == 'int':
+                    return take(d[r], rs[1:])
+                return [take(d[k], rs[1:]) for k in r]
+            full = rng + [('slice', range(n)) for n in shp[len(rng):]]
+            new_shape = [len(r) for kind, r in full if kind == 'slice']
+            return Mat(take(data, full), new_shape)
+        for i in idx:
             k = _const_int(i)
             if k is None:
                 return alg.opaque('getitem', (argkey(m),) + tuple(argkey(x) for x in idx))
@@ -1473,8 +1507,61 @@ class Evaluator(object):
             return Mat(cur, rest)
         return cur
 
+    def _slice_ranges(self, m, idx, node):
+        """[('int', k) | ('slice', range)] per indexed axis for constant indices / slices, else None"""
+        out = []
+        if len(idx) > len(m.shape):
+            return None
+        for ax, i in enumerate(idx):
+            n = m.shape[ax]
+            if isinstance(i, SliceV):
+                vals = []
+                for x in (i.lo, i.hi, i.step):
+                    if x is None or isinstance(x, NoneV):
+                        vals.append(None)
+                    else:
+                        k = _const_int(x)
+                        if k is None:
+                            return None
+                        vals.append(k)
+                out.append(('slice', range(*slice(*vals).indices(n))))
+            else:
+                k = _const_int(i)
+                if k is None or not (-n <= k < n):
+                    return None
+                out.append(('int', k % n))
+        return out
+
     def mat_store(self, m, idx, v, node):
         idx = idx if isinstance(idx, list) else [idx]
+        if any(isinstance(i, SliceV) for i in idx):
+            rng = self._slice_ranges(m, idx, node)
+            if rng is None:
+                self.diag('unknown', node, 'array store with a non-constant slice')
+                return
+            full = rng + [('slice', range(n)) for n in list(m.shape)[len(rng):]]
+            tshape = [len(r) for kind, r in full if kind == 'slice']
+            if isinstance(v, Mat):
+                if list(v.shape) != tshape:
+                    self.diag('shape', node, 'a value of shape %s is stored into a block of shape %s' % (tuple(v.shape), tuple(tshape)))
+                    return
+
+            def put(d, rs, src):
+                kind, r = rs[0]
+                if kind == 'int':
+                    if len(rs) == 1:
+                        d[r] = src
+                    else:
+                        put(d[r], rs[1:], src)
+                    return
+                for n_, k in enumerate(r):
+                    part = src[n_] if isinstance(src, list) else src
+                    if len(rs) == 1:
+                        d[k] = part
+                    else:
+                        put(d[k], rs[1:], part)
+            put(m.data, full, v.data if isinstance(v, Mat) else v)
+            return
         ks = [_const_int(i) for i in idx]
         if any(k is None for k in ks):
             self.diag('unknown', node, 'array store with a non-constant index')
